@@ -302,7 +302,7 @@ inductive Op where
   | load (n : Name) (lim : Limit) (fault : Option Item)   -- load_theory, possibly interrupted
   | imp (m : Mod)                                           -- `import m` at top level
   | touch (n : Name) (t : Nat)                              -- os.utime(file n, t)
-  | edit (n : Name) (items : List Item) (t : Nat)           -- new content, new mtime
+  | edit (n : Name) (imports : List Name) (items : List Item) (t : Nat)   -- new file (imports, content), new mtime
   | reloadMeta                                              -- basic.load_metadata()
   deriving Repr, Inhabited
 
@@ -314,7 +314,7 @@ def step (W : World) (fuel : Nat) (op : Op) (s : State) : R :=
   | .load n lim fault => exec W fault fuel (.load n lim) s
   | .imp m => exec W none fuel (.imp m) s
   | .touch n t => (none, setFile s n { s.files n with mtime := t })
-  | .edit n items t => (none, setFile s n { s.files n with items := items, mtime := t })
+  | .edit n imports items t => (none, setFile s n { imports := imports, items := items, mtime := t })
   | .reloadMeta => loadMetadata s
 
 /-- run a history; an op that raises is caught by the caller and the history goes on -/
